@@ -5,7 +5,7 @@
 From Coq Require Import String ZArith.
 From Verif Require Import Bytes Base64 Scram AuthLoop Sasl Crypto SaslRun.
 From VerifGen Require Import Gen.
-From VerifProofs Require Import SaslProofs.
+From VerifProofs Require Import SaslProofs ScramE2EProofs.
 Open Scope N_scope.
 
 (* saslname: names containing ',' and '=' survive, and the escaped name cannot split the message *)
@@ -97,16 +97,16 @@ Theorem C14_stateless_reuse_is_fresh : forall (m : mech unit) lad (s : unit) scr
 Proof. exact stateless_reuse_is_fresh. Qed.
 Print Assumptions C14_stateless_reuse_is_fresh.
 
-(* SCRAM: a call on a value in any state is the call on the reset value (with C15_source_has_repairs: Start resets);
-   fresh nonces per attempt: C14_retry_fresh_nonce.  PARTIAL: a reset value still differs from a fresh one in the cached
-   bindData field (rewritten by every -PLUS client-first before it is read, never read otherwise) - that irrelevance is
-   not proved, it is covered by the reuse sessions of the correspondence. *)
-Theorem C14_scram_reuse_starts_reset_partial : forall H HMAC hsize precis cfg id lad a0 st rands script,
+(* SCRAM: for every history (any state [st] the value was left in, incl. a cached bindData of an earlier exchange) and every
+   list of reply scripts, the sequence of exchanges on the reused value is the sequence on a fresh value, exchange by
+   exchange (result, lines, log).  bindData is derived data: initialClientMessage re-derives it from the tlsConnState handed to
+   the constructor whenever a -PLUS client-first is built, and it is read only after such a client-first of the same exchange. *)
+Theorem C14_scram_reuse_is_fresh : forall H HMAC hsize precis cfg id lad st rands scripts,
   start_resets cfg = true ->
-  auth (scram_mech H HMAC hsize precis cfg id) lad a0 (st, rands) script =
-  auth (scram_mech H HMAC hsize precis cfg id) lad a0 (ss_reset st, rands) script.
-Proof. exact scram_reuse_starts_reset. Qed.
-Print Assumptions C14_scram_reuse_starts_reset_partial.
+  auth_seq (scram_mech H HMAC hsize precis cfg id) lad (st, rands) scripts =
+  auth_seq (scram_mech H HMAC hsize precis cfg id) lad (ss_zero, rands) scripts.
+Proof. exact scram_reuse_is_fresh. Qed.
+Print Assumptions C14_scram_reuse_is_fresh.
 
 (* without the reset in Start the statement is false (LOGIN value left at step 2 by a completed exchange) *)
 Theorem C14_login_reuse_without_reset_refuted :
@@ -124,13 +124,63 @@ Theorem C14_pbkdf2_is_Hi : forall (HMAC : bytes -> bytes -> bytes) (n : nat) pw 
 Proof. exact pbkdf2_is_Hi. Qed.
 Print Assumptions C14_pbkdf2_is_Hi.
 
-(* NOT PROVED (kept visible): the end-to-end statement through the message assembly and the base64 framing,
-     the client-final-message produced by handle_server_first for an honest server-first is accepted by
-     Sasl.server_final (store H HMAC pw salt i) and the server-final it returns is accepted by handle_server_final;
-   the ingredients are proved (C14_scram_proof_accepted, C14_scram_server_signature_expected, C14_pbkdf2_is_Hi,
-   C14_saslname_*, CodecProofs.b64_roundtrip); what is missing is the comma-splitting of the assembled messages.
-   It is covered by the correspondence (full exchanges against the reference SCRAM server, RFC 5802 / 7677 vectors).
-   Concrete instances of pbkdf2.Key = Hi by computation: *)
+(* ---- the complete exchange against the RFC 5802 / 7677 / 9266 reference server of Sasl.v (scram_server_first /
+   scram_server_final: comma splitter Bytes.split_on 44, attribute prefixes, saslname unescaping, base64, StoredKey check),
+   through the assembled messages.  For every H / HMAC with outputs of one positive length consisting of bytes, every
+   client configuration [cfg], every prior state of the scramAuth value, every user name whose prepared escaped form is
+   ','-free and unescapes to the account name, every password, byte salt, iteration count 1 .. 2^63-1, non-empty draw of the
+   randomness oracle and ','-free server nonce part; for the -PLUS variants with the channel binding the client selects
+   (cb_select: tls-unique below TLS 1.3, else tls-exporter) equal to what the server's end reports:
+   the server accepts, the client has verified the ServerSignature, acknowledges and reports success. *)
+Theorem C14_scram_exchange_accepted :
+  forall (H : bytes -> bytes) (HMAC : bytes -> bytes -> bytes) (hsize : nat) (precis : bytes -> option bytes)
+         (cfg : scram_cfg) (id : scram_id) (c : srv_cfg) (db : bytes -> option stored),
+    (forall k m : bytes, length (HMAC k m) = hsize) -> (0 < hsize)%nat -> (forall k m : bytes, wf_bytes (HMAC k m) = true) ->
+    forall (uname acct pw salt : bytes) (iter : nat),
+    precis (escape_name (sid_user id)) = Some uname -> ~ In 44 uname -> unescape_name uname = Some acct ->
+    precis (sid_pass id) = Some pw ->
+    db acct = Some (store H HMAC pw salt iter) ->
+    (1 <= iter)%nat -> N.of_nat iter < 9223372036854775808 -> wf_bytes salt = true ->
+    ~ In 44 (sc_snonce c) ->
+    forall cbname cbdata : bytes,
+    (if sid_plus id
+     then sc_plus c = true /\ sc_cbname c = cbname /\ sc_cbdata c = cbdata /\ wf_bytes cbdata = true /\
+          (exists ti : tls_info, sid_tls id = Some ti /\ cb_select ti = Some (cbname, cbdata))
+     else sc_plus c = false /\ cbname = [] /\ cbdata = []) ->
+    forall r : bytes, is_nil r = false ->
+    forall (st : scram_state) (rest : list bytes),
+      scram_dialogue H HMAC hsize precis cfg id c db (st, r :: rest) = true.
+Proof. exact e2e_accepted. Qed.
+Print Assumptions C14_scram_exchange_accepted.
+
+(* with PRECIS the identity on the two strings (H-precis: printable ASCII), names containing ',' and '=' included *)
+Theorem C14_scram_exchange_accepted_ascii :
+  forall (H : bytes -> bytes) (HMAC : bytes -> bytes -> bytes) (hsize : nat) (precis : bytes -> option bytes)
+         (cfg : scram_cfg) (id : scram_id) (c : srv_cfg) (db : bytes -> option stored),
+    (forall k m : bytes, length (HMAC k m) = hsize) -> (0 < hsize)%nat -> (forall k m : bytes, wf_bytes (HMAC k m) = true) ->
+    forall (salt : bytes) (iter : nat),
+    precis (escape_name (sid_user id)) = Some (escape_name (sid_user id)) -> precis (sid_pass id) = Some (sid_pass id) ->
+    db (sid_user id) = Some (store H HMAC (sid_pass id) salt iter) ->
+    (1 <= iter)%nat -> N.of_nat iter < 9223372036854775808 -> wf_bytes salt = true ->
+    ~ In 44 (sc_snonce c) -> sid_plus id = false -> sc_plus c = false ->
+    forall r : bytes, is_nil r = false ->
+    forall (st : scram_state) (rest : list bytes),
+      scram_dialogue H HMAC hsize precis cfg id c db (st, r :: rest) = true.
+Proof. exact e2e_accepted_ascii. Qed.
+Print Assumptions C14_scram_exchange_accepted_ascii.
+
+(* wrong credentials: whatever proof the client-final carries, the server rejects it when it does not open the StoredKey.
+   (That a client holding another password cannot produce an opening proof is the cryptographic assumption - not a theorem.) *)
+Theorem C14_scram_server_rejects_wrong_proof :
+  forall (H : bytes -> bytes) (HMAC : bytes -> bytes -> bytes) a gs2 cbdata cbare sfirst combined c64 nonce p64 cb proof,
+    b64dec c64 = Some cb -> b64dec p64 = Some proof -> ~ In 44 c64 -> ~ In 44 nonce -> ~ In 44 p64 ->
+    H (bxor (HMAC (sv_stored_key a) (cbare ++ bs "," ++ sfirst ++ bs "," ++ (bs "c=" ++ c64) ++ bs "," ++ (bs "r=" ++ nonce))) proof)
+      <> sv_stored_key a ->
+    server_final H HMAC a gs2 cbdata cbare sfirst combined ((bs "c=" ++ c64) ++ bs "," ++ (bs "r=" ++ nonce) ++ bs "," ++ (bs "p=" ++ p64)) = None.
+Proof. exact server_rejects_wrong_proof. Qed.
+Print Assumptions C14_scram_server_rejects_wrong_proof.
+
+(* Concrete instances of pbkdf2.Key = Hi by computation: *)
 Example C14_pbkdf2_is_Hi_instances :
   pbkdf2_key hmac_sha1 (bs "password") (bs "salt") 2 20 20 = Hi hmac_sha1 (bs "password") (bs "salt") 2 /\
   pbkdf2_key hmac_sha256 (bs "pencil") (bs "saltSALT") 3 32 32 = Hi hmac_sha256 (bs "pencil") (bs "saltSALT") 3 /\
